@@ -24,6 +24,7 @@ func init() {
 			{ID: "C18-R7", Doc: "CanApply's column loops tile every column index", Run: c18r7},
 			{ID: "C18-R8", Doc: "the exact-shape clauses of the documented schemas are each rejected by some typecheck guard; the context parameter is recognised by type identity", Run: c18r8},
 			{ID: "C18-R9", Doc: "element-wise type comparisons start at the first column", Run: c18r9},
+			{ID: "C18-R10", Doc: "Fold expects func(acc, all columns after the first)", Run: c18r10},
 		},
 	})
 }
